@@ -201,15 +201,24 @@ def classify(tname: str, s: str) -> str:
 # native twin: the same extracted statements executed in the real DuckDB for one concrete cell
 # --------------------------------------------------------------------------------------------------------------------
 def native_query(prog: loadvc.LoadProgram) -> str:
+    """One SELECT that pushes a single cell through the extracted statements IN THE ORDER the loader executed them:
+    s0 = the INSERT expression, then one CTE per UPDATE / temporal check (the verdict of each check is carried along)."""
     ins = prog.insert[X].sql(dialect="duckdb")
-    upd = [(e.sql(dialect="duckdb"), w.sql(dialect="duckdb") if w is not None else "TRUE") for c, e, w in prog.updates
-           if c == X]
-    b = f'"{X}"'
-    for e, w in upd:
-        b = f'CASE WHEN {w} THEN {e} ELSE "{X}" END'
-    cases = [c.sql(dialect="duckdb") for c in prog.temporal_cases] or ["NULL"]
-    return (f'WITH a AS (SELECT {ins} AS "{X}" FROM (SELECT CAST(? AS VARCHAR) AS "{X}")), '
-            f'b AS (SELECT {b} AS "{X}" FROM a) SELECT "{X}", COALESCE({", ".join(cases)}) FROM b')
+    ctes = [f's0 AS (SELECT {ins} AS "{X}", CAST(NULL AS VARCHAR) AS inv FROM (SELECT CAST(? AS VARCHAR) AS "{X}"))']
+    for i, step in enumerate(prog.steps, start=1):
+        if step[0] == "update":
+            _k, col, e, w = step
+            if col != X:
+                continue
+            wsql = w.sql(dialect="duckdb") if w is not None else "TRUE"
+            ctes.append(f's{i} AS (SELECT CASE WHEN {wsql} THEN {e.sql(dialect="duckdb")} ELSE "{X}" END AS "{X}", inv '
+                        f'FROM s{len(ctes) - 1})')
+        else:
+            cases = [c.sql(dialect="duckdb") for c in step[1]] or ["NULL"]
+            ctes.append(f's{i} AS (SELECT "{X}", COALESCE(inv, {", ".join(cases)}) AS inv FROM s{len(ctes) - 1})')
+    # CTE names must follow their position
+    ctes = [c.replace(c.split(" AS ", 1)[0], f"s{j}", 1) for j, c in enumerate(ctes)]
+    return f'WITH {", ".join(ctes)} SELECT "{X}", inv FROM s{len(ctes) - 1}'
 
 
 _W_CONN = None
